@@ -7,7 +7,7 @@ Local Open Scope N_scope.
 
 (* ---- the tie to the code: src/polyseed.c as TRANSLATED on this run (Gen/CApi.v) ---- *)
 From Coq Require Import String.
-From PS Require Import Base GFDefs PackDefs StoreDefs MiscDefs StrDefs LangDefs ApiDefs GFProofs PackProofs StoreProofs CTieBase CTieLang CTiePhrase CTiePhraseEv CTieSplit CTieApi CTieDecode CTieEncode CTieLocals.
+From PS Require Import Base GFDefs PackDefs StoreDefs MiscDefs StrDefs LangDefs ApiDefs GFProofs PackProofs StoreProofs CTieBase CTieLang CTiePhrase CTiePhraseEv CTieSplit CTieApi CTieDecode CTieEncode CTieLocals CTieInject CTieCmp.
 From PS.Gen Require Import Consts PrivConsts Langs.
 From PS.Gen Require CFuns.
 From PS.Gen Require CApi.
@@ -48,3 +48,12 @@ Theorem C18_code_tie_api_keygen :
          [EvKdf (d_secret d) SECRET_BUFFER_SIZE (keygen_salt coin d) 32 KDF_NUM_ITERATIONS size].
 Proof. exact @tie_keygen. Qed.
 Print Assumptions C18_code_tie_api_keygen.
+
+(* polyseed_inject as translated (release build): the table in place afterwards is a copy of the one handed in, NULL time / alloc / free replaced each by its own libc default, every entry replaced, nothing kept from the previous table *)
+Theorem C18_code_tie_inject :
+  forall r k z c d t a f r0 k0 z0 c0 d0 t0 a0 f0 : Z,
+         CApi.polyseed_inject r k z c d t a f r0 k0 z0 c0 d0 t0 a0 f0 =
+         (r, k, z, c, d, if (t =? 0)%Z then LIBC_TIME else t, if (a =? 0)%Z then LIBC_MALLOC else a,
+          if (f =? 0)%Z then LIBC_FREE else f).
+Proof. exact @tie_inject. Qed.
+Print Assumptions C18_code_tie_inject.
